@@ -151,6 +151,14 @@ impl Mut {
     /// Returns the id, or 0 if the allocation failed (out of memory).
     #[allow(clippy::too_many_arguments)]
     pub fn alloc_into_root(&mut self, r: usize, size: usize, nrefs: usize, sem: u8, kind: u8, flags: u8, align_log: u8, offset: u8) -> u64 {
+        self.alloc_into_root_with_referent(r, size, nrefs, sem, kind, flags, align_log, offset, None)
+    }
+
+    /// Like `alloc_into_root`; a reference object gets its referent (the object in root
+    /// `referent_root`) as an initialising store *before* it is registered with MMTk, the way a
+    /// `java.lang.ref.Reference` is constructed: the referent is never set again afterwards.
+    #[allow(clippy::too_many_arguments)]
+    pub fn alloc_into_root_with_referent(&mut self, r: usize, size: usize, nrefs: usize, sem: u8, kind: u8, flags: u8, align_log: u8, offset: u8, referent_root: Option<usize>) -> u64 {
         let w = world();
         debug_assert!(size >= HEADER_BYTES + 8 * nrefs && size % 8 == 0);
         let align = 1usize << align_log;
@@ -171,7 +179,22 @@ impl Mut {
         let h = Hdr { size: size as u32, nrefs: nrefs as u16, kind, id, sem, align_log, offset, flags, check: 0 };
         unsafe { init_object(start, &h) };
         let r_addr = ref_of(start);
+        // initialising store of the referent (no safepoint between `alloc` returning and here, so
+        // the address in our root is current)
+        let mut referent_id = 0;
+        if let Some(rr) = referent_root {
+            if kind != KIND_NORMAL && nrefs >= 1 && rr != r {
+                let v = self.root(rr);
+                if v != 0 {
+                    unsafe { wr(slot_addr(start, 0), v as u64) };
+                    referent_id = w.shadow.lock().unwrap().roots[self.idx][rr];
+                }
+            }
+        }
         memory_manager::post_alloc(self.m(), objref(r_addr), size, sem_of(sem));
+        if kind != KIND_NORMAL && world::trace_refs() {
+            eprintln!("REFTRACE alloc id={} kind={} at {:#x} referent_id={} slot0={:#x}", id, kind, start, referent_id, unsafe { rd(slot_addr(start, 0)) });
+        }
         match kind {
             KIND_WEAK => memory_manager::add_weak_candidate(w.mmtk, objref(r_addr)),
             KIND_SOFT => memory_manager::add_soft_candidate(w.mmtk, objref(r_addr)),
@@ -183,7 +206,10 @@ impl Mut {
             let oalive = sh.objs.contains_key(&other);
             violation("C02", "alloc:overlaps-live-or-recent-object", format!("alloc(size={}, sem={}) returned [{:#x},{:#x}) which overlaps object id {} at [{:#x},{:#x}) (known={}, plan {})", size, sem, start, start + size, other, s, e, oalive, w.cfg.plan));
         }
-        let o = SObj { id, addr: r_addr, size: size as u32, nrefs: nrefs as u16, kind, sem, align_log, offset, flags, fields: vec![0; nrefs], pinned: false, born_epoch: sh.epoch, survived: 0, enqueued: false, moved_count: 0 };
+        let mut o = SObj { id, addr: r_addr, size: size as u32, nrefs: nrefs as u16, kind, sem, align_log, offset, flags, fields: vec![0; nrefs], pinned: false, born_epoch: sh.epoch, survived: 0, enqueued: false, moved_count: 0 };
+        if referent_id != 0 {
+            o.fields[0] = referent_id;
+        }
         sh.insert_interval(&o);
         sh.objs.insert(id, o);
         satb_note_alloc(&mut sh, id);
@@ -232,7 +258,14 @@ impl Mut {
         if nrefs == 0 {
             return;
         }
-        let i = i % nrefs;
+        let mut i = i % nrefs;
+        if sh.objs[&src_id].kind != KIND_NORMAL && i == 0 && b.is_some() {
+            // the referent of a reference object is only set at construction
+            if nrefs == 1 {
+                return;
+            }
+            i = 1;
+        }
         let (tgt_id, tgt_addr) = match b {
             Some(b) => {
                 let t = sh.roots[self.idx][b];
@@ -286,7 +319,14 @@ impl Mut {
         if nrefs == 0 {
             return;
         }
-        let i = i % nrefs;
+        let mut i = i % nrefs;
+        if kind == KIND_PHANTOM && i == 0 {
+            // a phantom reference never hands out its referent
+            if nrefs == 1 {
+                return;
+            }
+            i = 1;
+        }
         let v = unsafe { rd(slot_addr(start_of(src_addr), i)) } as usize;
         let fid = sh.objs[&src_id].fields[i];
         let want = if fid == 0 { 0 } else { sh.objs.get(&fid).map(|o| o.addr).unwrap_or(usize::MAX) };
@@ -373,9 +413,11 @@ impl Mut {
         // DESIGN.md section 5 and known_findings.json).
         if !cfg.scenario.starts_with("finding-") {
             let immix_nonmoving = cfg!(any(feature = "var_a", feature = "var_b"));
-            if sem == SEM_NONMOVING && immix_nonmoving && (cfg.plan == "MarkCompact" || cfg.plan == "ConcurrentImmix") {
-                // MarkCompact's two transitive closures / ConcurrentImmix's SATB log bits do not
-                // cover the Immix non-moving space.
+            if sem == SEM_NONMOVING && immix_nonmoving && (cfg.plan == "MarkCompact" || cfg.plan == "ConcurrentImmix" || cfg.is_generational()) {
+                // MarkCompact's two transitive closures, ConcurrentImmix's SATB log bits and the
+                // nursery collections of the generational plans (sweep without trace, no unlog
+                // bit on allocation, is_live false for untraced objects) do not cover the Immix
+                // non-moving space.
                 sem = SEM_DEFAULT;
             }
             if (sem == SEM_NONMOVING || sem == SEM_IMMORTAL) && cfg.plan == "Compressor" {
@@ -425,15 +467,19 @@ impl Mut {
     fn op_alloc(&mut self) {
         let r = self.pick_root();
         let (size, nrefs, sem, kind, flags, al, off) = self.random_shape();
-        let id = self.alloc_into_root(r, size, nrefs, sem, kind, flags, al, off);
-        if id != 0 && kind != KIND_NORMAL {
-            // give the reference object a referent
-            if let Some(t) = self.pick_nonnull_root() {
-                if t != r {
-                    self.write_field(r, 0, Some(t));
-                }
-            }
-        }
+        // A referent in a never-collected space stays "alive" for MMTk although nothing it
+        // references is kept alive once it is unreachable, so a weak get could hand out an object
+        // with dangling fields: a VM must not do that, and neither does the generator.
+        let referent = if kind != KIND_NORMAL {
+            self.pick_nonnull_root().filter(|t| *t != r).filter(|t| {
+                let sh = world().shadow.lock().unwrap();
+                let id = sh.roots[self.idx][*t];
+                id != 0 && !never_collected(sh.objs[&id].sem)
+            })
+        } else {
+            None
+        };
+        self.alloc_into_root_with_referent(r, size, nrefs, sem, kind, flags, al, off, referent);
     }
 
     /// Build a singly linked list of `n` small objects hanging off root r.
@@ -654,7 +700,12 @@ impl Mut {
         let mut sh = w.shadow.lock().unwrap();
         let id = sh.roots[self.idx][r];
         let o = &sh.objs[&id];
-        if o.sem == SEM_IMMORTAL {
+        if never_collected(o.sem) {
+            return;
+        }
+        // one outstanding registration per object (a second one would be returned while the VM
+        // already holds the object strongly from the first)
+        if sh.fin_registered.contains_key(&id) || sh.vm_strong.iter().any(|x| x.1 == id) {
             return;
         }
         let a = o.addr;
